@@ -116,7 +116,7 @@ def check_edges(before, out, thr2, centre, same_thr, sgn):
     return None, changed, any(g and not o for o, g in zip(b, got))
 
 
-def eval_layout(case):
+def eval_layout(case, thr_menu=None, reductions=None):
     from bycycle.features.burst import compute_amp_consistency, compute_period_consistency, compute_amp_fraction
     from bycycle.burst import detect_bursts_cycles, recompute_edges
     n = len(case)
@@ -139,9 +139,9 @@ def eval_layout(case):
             df0.index = range(5, 5 + n)
         elif ik == 2:
             df0.index = [i % 2 for i in range(n)]
-        for ti, thr in enumerate(THR_MENU):
+        for ti, thr in enumerate(thr_menu or THR_MENU):
             df = detect_bursts_cycles(df0.copy(), **thr)
-            for r in REDUCTIONS:
+            for r in (reductions or REDUCTIONS):
                 thr2 = lowered(thr, r)
                 if r < 0:
                     thr2['min_n_cycles'] = thr['min_n_cycles'] + 1
@@ -167,7 +167,21 @@ def eval_layout(case):
                 outs.append(table_hash(out))
     if nev == 0:
         return SKIP('no burst in this layout')
-    return OK(outcome=(tuple(case), tuple(outs)), nontrivial=nt, evals=nev)
+    return OK(outcome=(tuple(case) if len(case) < 20 else (len(case), hash(tuple(case))), tuple(outs)), nontrivial=nt, evals=nev)
+
+
+def eval_layout_long(case):
+    """Tables with MANY bursts: R runs of qualifying cycles (lengths cycling through a pattern) separated by cycles that fail
+    monotonicity or amplitude consistency - run numbering / counters keyed on the number of bursts (128, 256, ...)."""
+    from bcmc.props.C08 import RUN_PATTERNS
+    R, pi = case
+    lens, gaps = RUN_PATTERNS[pi]
+    good, bad, weak = (0, .9), (0, .1), (1, .9)
+    kinds = [bad]
+    for r in range(R):
+        kinds += [good] * lens[r % len(lens)] + [weak if r % 16 == 5 else bad] * gaps[r % len(gaps)]
+    kinds += [good] * 5 + [bad]
+    return eval_layout(kinds, thr_menu=[THR_MENU[1], dict(THR_MENU[0], min_n_cycles=3)], reductions=[0, .1])
 
 
 PIPE_THR = [dict(S.T0), {'amp_fraction_threshold': .2, 'amp_consistency_threshold': .6, 'period_consistency_threshold': .7,
@@ -251,9 +265,52 @@ def eval_pipeline(case):
                     return VIOL({'site': 'BycycleGroup.recompute_edges', 'model': i},
                                 'model %d after BycycleGroup.recompute_edges(.1) differs from the functional result: %s' % (i, dd),
                                 observed={'word': w, 'thr': thr})
+    # LAST (so that everything above is decided first): the same on a table computed WITHOUT sample columns (return_samples=False)
+    thr = PIPE_THR[0]
+    for r in (0, .1):
+        thr2 = lowered(thr, r)
+        thr2['amp_fraction_threshold'] = thr['amp_fraction_threshold']        # (already 0: cannot be lowered)
+        df_ns = run_cf(sig, o, threshold_kwargs=dict(thr), return_samples=False)
+        before_ns = df_ns.copy()
+        out_ns = recompute_edges(df_ns, dict(thr2))
+        nev += 1
+        v, _, _ = check_edges(before_ns, out_ns, thr2, centre, r == 0, {'site': 'recompute_edges', 'centre': centre, 'via': 'pipeline-nosamples'})
+        if v is not None:
+            v['observed'] = {'word': w, 'thr': thr2, 'detail': v.get('observed')}
+            return v
     if nev == 0:
         return SKIP('no burst')
     return OK(outcome=(w, centre, tuple(outs)), nontrivial=nt, evals=nev)
+
+
+def eval_pipeline_long(case):
+    from bycycle.burst import recompute_edges
+    from bycycle import Bycycle
+    from bcmc.ref.table import diff_tables
+    w, centre = case
+    o = S.resolve((S.LONG_DECL[w],) + (('trough',) if centre == 'trough' else ()))
+    sig = S.make_signal(w, o)
+    nev, nt = 0, False
+    thr = PIPE_THR[1]
+    df = run_cf(sig, o, threshold_kwargs=dict(thr))
+    for r in (0, .1, .005):
+        thr2 = lowered(thr, r)
+        before = df.copy()
+        out = recompute_edges(df, dict(thr2))
+        nev += 1
+        v, changed, grew = check_edges(before, out, thr2, centre, r == 0, {'site': 'recompute_edges', 'centre': centre, 'via': 'long'})
+        if v is not None:
+            return v
+        nt = nt or changed
+        bm = Bycycle(center_extrema=centre, thresholds=dict(thr))
+        bm.fit(np.array(sig), o['fs'], o['f_range'])
+        bm.recompute_edges(None if r == 0 else r)
+        nev += 1
+        dd = diff_tables(bm.df_features, out)
+        if dd:
+            return VIOL({'site': 'Bycycle.recompute_edges', 'centre': centre, 'via': 'long'},
+                        'Bycycle.recompute_edges(%r) differs from the functional edge recomputation: %s' % (r, dd))
+    return OK(outcome=(w, centre, table_hash(out)), nontrivial=nt, evals=nev)
 
 
 def spaces(tier, seed):
@@ -262,6 +319,12 @@ def spaces(tier, seed):
                         describe='every table of 3..%d cycles over 5 flank/period kinds x 2 monotonicities x 3 threshold sets x 3 reductions x 2 centrings' % (4 if q else 5)),
            ProductSpace('layouts-mono.9-%d' % (5 if q else 6), [KINDS[:5]] * (5 if q else 6), eval_layout,
                         describe='every table of %d cycles over the 5 flank/period kinds (monotonicity .9)' % (5 if q else 6))]
+    Rs = [127, 128, 129, 255, 256, 257, 258, 272] + ([] if q else [126, 130, 254, 300, 511, 512, 513, 530])
+    out.append(ProductSpace('layouts-many-bursts', [Rs, [0, 2]], eval_layout_long,
+                            describe='synthetic tables with 126..%d bursts (run lengths cycling through a pattern) x 2 threshold sets x 2 reductions x 2 centrings' % Rs[-1]))
+    from bcmc.explore import ListSpace
+    out.append(ListSpace('long-recordings', [['@A', 'peak'], ['@A', 'trough'], ['@E', 'peak'], ['@E', 'trough'], ['@D', 'trough']], eval_pipeline_long,
+                         describe='long real-valued recordings: recompute_edges against the one-sided definitions and the rule'))
     al = ['a', 'd', 'n']
     L = 7 if q else 8
     out.append(ProductSpace('W(%d,%d)-pipeline' % (len(al), L), S.word_dims(al, L) + [['peak', 'trough']], eval_pipeline,
